@@ -30,8 +30,9 @@ def _job(args):
     out["assumptions"] = sorted(rep.assumptions)
     out["gen_s"] = rep.gen_time
     t1 = time.time()
+    import re
+    out["generated_kinds"] = sorted({re.sub(r"\{.*\}$", "", o.name) for o in rep.obligations})
     if ob_filter:
-        import re
         rep.obligations = [o for o in rep.obligations if re.search(ob_filter, o.name)]
     tmo = max(timeout_ms, getattr(c, "timeout_ms", 0))
     res = solve.discharge(rep.obligations, timeout_ms=tmo, procs=1, quick_ms=min(tmo, 4000))
